@@ -151,6 +151,46 @@ class C16(Prop):
         finally:
             shutil.rmtree(base, ignore_errors=True)
 
+    def expected_reads(self, case, obs):
+        """Reference reachability for link-free trees and error-free loads: the set of files and folders
+        a complete load must read (None when the reference meets anything it does not decide)."""
+        root, cfg, tree = obs["root"], case["cfg"], case["tree"]
+        if tree["links"]:
+            return None
+        files = {os.path.normpath(os.path.join(root, f["rel"])): f for f in tree["files"]}
+        listing = {os.path.normpath(p): pl for p, k, pl in obs["nodes"] if k == "dir"}
+        pat = re.compile((cfg.get("start_pattern") or r"(?!~\$)") + r".*\.(csv|xlsx)$", re.IGNORECASE)
+        stack = [(sp, None) for sp in obs["roots"]]
+        visited = set()
+        while stack:
+            spec, src = stack.pop()
+            s = spec[5:] if spec.lower().startswith("file:") else spec
+            if cfg["use_root"] and s[:1] in ("/", "\\"):
+                p = os.path.join(root, s[1:])
+            elif os.path.isabs(s):
+                p = s
+            elif src is None:
+                return None
+            else:
+                p = os.path.join(src, s)
+            p = os.path.normpath(p)
+            if cfg["use_root"] and not (p == root or p.startswith(root + os.sep)):
+                return None
+            if p in visited:
+                continue
+            if p in files:
+                visited.add(p)
+                if cfg["allow_include"]:
+                    for b in files[p]["blocks"]:
+                        if b["k"] == "include":
+                            stack += [(ln, os.path.dirname(p)) for ln in b["lines"]]
+            elif p in listing:
+                visited.add(p)
+                stack += [(e, p) for e in listing[p] if pat.match(e)]
+            else:
+                return None
+        return visited
+
     # ---- oracle: the statement, on the implementation's behaviour ----
     def oracle(self, case, obs):
         fails = []
@@ -176,6 +216,15 @@ class C16(Prop):
         if len(set(opened)) != len(opened):
             dup = next(p for p in opened if opened.count(p) > 1)
             fails.append(f"read-twice: {os.path.relpath(dup, obs['base'])} was opened / listed more than once")
+        # a complete, error-free load reads exactly what is reachable
+        if obs["code"] == 0 and not obs["issues"] and not self.hostile:
+            want = self.expected_reads(case, obs)
+            if want is not None:
+                got = set(opened)
+                for p in sorted(want - got)[:2]:
+                    fails.append(f"reach-missed: {os.path.relpath(p, obs['base'])} is reachable from the roots but was never read")
+                for p in sorted(got - want)[:2]:
+                    fails.append(f"reach-extra: {os.path.relpath(p, obs['base'])} was read but is not reachable from the roots")
         # blocks of a file come together and in file order
         cur, seen_files = None, []
         per_file = {}
